@@ -788,7 +788,32 @@ const Family *find_family(const std::string &name, const std::string &tier)
   else if (name == "retry-long") f = retry_long_family(tier);
   else if (name == "adversary") f = adversary_family(tier);
   else if (name == "cache") f = cache_family(tier);
-  else if (name == "addrs-cache") {
+  else if (name == "search-fault") {
+    // one socket() failure (EAGAIN) while a candidate's connection is being opened: the candidate list and the stopping
+    // rule are unchanged by it (the attempt failed; it is not an answer)
+    f      = search_family(tier);
+    f.name = "search-fault";
+    {
+      std::vector<Cfg> keep;
+      for (auto &c : f.cfgs)
+        if (c.name == "ndots1-doms2" || c.name == "ndots2-doms2") keep.push_back(c);
+      for (auto &c : keep) c.udp_max_queries = 1; // every candidate needs a socket of its own
+      Cfg two      = keep[0];
+      two.name     = "ndots1-doms2-2srv";
+      two.nservers = 2;
+      keep.push_back(two);
+      f.cfgs = keep;
+    }
+    f.req_menu.clear();
+    for (int i = 0; i < (int)f.reqs.size(); i++)
+      if (i / 4 <= 1 && (i % 4 == 0 || i % 4 == 2)) f.req_menu.push_back(i);
+    f.replies     = { RK_DATA, RK_NXDOMAIN };
+    f.faults      = { FS_SOCKET_EAGAIN };
+    f.fault_skips = { 0 };
+    f.max_dev     = 1;
+    f.evmask |= EVBIT(EV_FAULT);
+    f.max_depth = 5;
+  } else if (name == "addrs-cache") {
     // address lookups answered from the query cache, more than once and at different ages
     f      = addrs_family(tier);
     f.name = "addrs-cache";
